@@ -154,7 +154,7 @@ def species_keys(chk, P):
             I, cp = out[3], out[4]
             return I.getattr(cp, prop)
         return outcome(go)
-    site = cls.lookup("pair").site()
+    site = cls.site_of("pair")
     for key in ("AB", "A-B", " A - B ", "A-B-C", "-"):
         out = rows_of("[Pair]\n%s : as.zero\n" % key, "pair")
         want = "accepted" if key.count("-") == 1 else "config-error"
@@ -164,7 +164,7 @@ def species_keys(chk, P):
         out = rows_of("[EAM-Density]\n%s : as.zero\n" % key, "eam_density_fs")
         want = "accepted" if key.count("->") == 1 else "config-error"
         chk.ob("C16.E3", "[EAM-Density] key %r -> %s" % (key, want), classify(P, out) == want,
-               site=cls.lookup("eam_density_fs").site(), found=classify(P, out), expect=want, key="C16.E3|fs|%s" % key)
+               site=cls.site_of("eam_density_fs"), found=classify(P, out), expect=want, key="C16.E3|fs|%s" % key)
     # the wrapper turns any ConfigParserException of the key/definition parser into its own message (still a configuration error)
     # [Species]
     for text, want in (("[Species]\nAl.atomic_mass : 26.9\n", "accepted"), ("[Species]\nAl : 26.9\n", "config-error"),
@@ -175,7 +175,7 @@ def species_keys(chk, P):
             o2 = outcome(lambda: I2.getattr(cp2, "species"))
         else:
             o2 = out
-        chk.ob("C16.E3", "%r -> %s" % (text.split("\n")[1], want), classify(P, o2) == want, site=cls.lookup("species").site(),
+        chk.ob("C16.E3", "%r -> %s" % (text.split("\n")[1], want), classify(P, o2) == want, site=cls.site_of("species"),
                found=classify(P, o2), expect=want, key="C16.E3|species|%s" % text.split("\n")[1])
 
 
@@ -241,7 +241,7 @@ def parser_errors(chk, P):
         rawinst = I2.getattr(cp2, "raw_config_parser")
         out = outcome(lambda: I2.call(I2.getattr(rawinst, "get"), [Const("Pair"), Const("A-B")], {}))
         chk.ob("C16.E6", "configparser.%s raised while a value is read -> configuration error" % name, classify(P, out) == "config-error",
-               site=raw.lookup("get").site() if raw.lookup("get") else None, found=classify(P, out), expect="config-error",
+               site=raw.site_of("get") if raw.lookup("get") else None, found=classify(P, out), expect="config-error",
                key="C16.E6|interp|%s" % name)
 
 
@@ -515,6 +515,11 @@ def _factory_returns_cfg(P, fi, target, cfg, depth):
         r = P.resolve_expr(fi.module, target)
         if isinstance(r, FuncInfo):
             callee = r
+        elif isinstance(target, ast.Attribute):
+            # ClassName.alternative_constructor(...)
+            owner = P.resolve_expr(fi.module, target.value)
+            if isinstance(owner, ClassInfo):
+                callee = owner.lookup(target.attr)
     if not isinstance(callee, FuncInfo):
         return False
     return _all_returns_cfg(P, callee, cfg, depth)
@@ -531,6 +536,9 @@ def _all_returns_cfg(P, callee, cfg, depth):
         c = P.resolve_expr(callee.module, v.func)
         if isinstance(c, ClassInfo) and c.is_subclass_of(cfg):
             continue
+        if callee.is_classmethod and callee.cls is not None and isinstance(v.func, ast.Name) and callee.node.args.args \
+                and v.func.id == callee.node.args.args[0].arg and callee.cls.is_subclass_of(cfg):
+            continue                   # cls(...) inside a classmethod of a ConfigurationException subclass
         if not _factory_returns_cfg(P, callee, v.func, cfg, depth - 1):
             return False
     return True
@@ -640,7 +648,7 @@ def documented_valid(chk, P):
         if o[0] != "ok":
             refused[lab] = classify(P, o)
     chk.ob("C16.E10", "every documented interpolation type %s is accepted by the table-form builder" % doc_interp, bool(doc_interp) and not refused,
-           site=tbcls.lookup("create_potential_form").site(), found=refused or None, expect="all accepted", key="C16.E10|interpolation")
+           site=tbcls.site_of("create_potential_form"), found=refused or None, expect="all accepted", key="C16.E10|interpolation")
     # forms
     sigs = F.manual_signatures(repo)
     from .c06 import _form_tuple_hook
@@ -653,7 +661,7 @@ def documented_valid(chk, P):
     have = set(x.v for x in J.as_iterable(J.getattr(reg, "registered")).items)
     missing = sorted("as." + n for n in sigs if "as." + n not in have)
     chk.ob("C16.E10", "every form with a ':potable signature:' in the manual (%d) is registered" % len(sigs), not missing and len(sigs) >= 14,
-           site=P.cls("atsim.potentials.config._potential_form_registry", "Potential_Form_Registry").lookup("__init__").site(), found=missing or None,
+           site=P.cls("atsim.potentials.config._potential_form_registry", "Potential_Form_Registry").site_of("__init__"), found=missing or None,
            expect="all registered", key="C16.E10|forms")
     txt3 = open(os.path.join(repo, "docs", "reference", "potential_modifiers.rst"), encoding="utf-8").read()
     doc_mods = set(re.findall(r"^\.\. _modifier-(\w+):", txt3, re.M))
@@ -758,7 +766,7 @@ def unknown_names(chk, P):
     conf = I.instantiate(P.cls("atsim.potentials.config._configuration", "Configuration"), [], {}, None)
     o = outcome(lambda: W.run_method(I, conf, "read_from_parser", [cp]))
     chk.ob("C16.E12", "unknown tabulation target -> configuration error", classify(P, o) == "config-error",
-           site=P.cls("atsim.potentials.config._configuration", "Configuration").lookup("read_from_parser").site(), found=classify(P, o),
+           site=P.cls("atsim.potentials.config._configuration", "Configuration").site_of("read_from_parser"), found=classify(P, o),
            expect="config-error", key="C16.E12|target")
     # missing section
     out = parse(P, "[Tabulation]\ntarget : GULP\n")
@@ -774,7 +782,7 @@ def unknown_names(chk, P):
     tup = I.call(tt, [Const("t"), Const("nope"), W.param("x"), W.param("y")], {})
     o = outcome(lambda: W.run_method(I, tb, "create_potential_form", [tup]))
     chk.ob("C16.E12", "unknown interpolation type -> configuration error", classify(P, o) == "config-error",
-           site=P.cls("atsim.potentials.config._table_form_builder", "Table_Form_Builder").lookup("create_potential_form").site(),
+           site=P.cls("atsim.potentials.config._table_form_builder", "Table_Form_Builder").site_of("create_potential_form"),
            found=classify(P, o), expect="config-error", key="C16.E12|interpolation")
     # data the interpolation cannot use
     I = F.make_interp(P)
@@ -785,7 +793,7 @@ def unknown_names(chk, P):
     o = outcome(lambda: W.run_method(I, tb, "create_potential_form", [tup]))
     chk.ob("C16.E12", "ValueError from the interpolation's constructor (too few / unsorted points) -> configuration error",
            classify(P, o) == "config-error",
-           site=P.cls("atsim.potentials.config._table_form_builder", "Table_Form_Builder").lookup("create_potential_form").site(),
+           site=P.cls("atsim.potentials.config._table_form_builder", "Table_Form_Builder").site_of("create_potential_form"),
            found=classify(P, o), expect="config-error", key="C16.E12|table-data")
 
 
@@ -796,7 +804,7 @@ def table_form_arity(chk, P):
     tt = I.module_global(P.module(COMMON), "TableFormTuple")
     tup = I.call(tt, [Const("t"), Const("cubic_spline"), W.param("x"), W.param("y")], {})
     pf = W.run_method(I, tb, "create_potential_form", [tup])
-    site = P.cls("atsim.potentials.config._potential_form", "Existing_Potential_Form").lookup("__call__").site()
+    site = P.cls("atsim.potentials.config._potential_form", "Existing_Potential_Form").site_of("__call__")
     o = outcome(lambda: I.call(pf, [], {}))
     chk.ob("C16.E12", "a table form used without parameters is accepted", classify(P, o) == "accepted", site=site, found=classify(P, o),
            expect="accepted", key="C16.E12|table-form|bare")
@@ -821,7 +829,7 @@ class _FormsCfg(object):
 def name_clashes(chk, P):
     from .c06 import _form_tuple_hook
     reg = P.cls("atsim.potentials.config._potential_form_registry", "Potential_Form_Registry")
-    site = P.cls("atsim.potentials.config._cexprtk_potential_function", "_Cexptrk_Potential_Function").lookup("__init__").site()
+    site = P.cls("atsim.potentials.config._cexprtk_potential_function", "_Cexptrk_Potential_Function").site_of("__init__")
 
     def attempt(forms):
         """forms: [(label, [parameter names after r])]; the registry is built and every form evaluated once"""
@@ -861,7 +869,7 @@ def nested_call_arity(chk, P):
     """g(r, a) registered with the expression library; the library calls it back with the arguments the calling formula
     wrote.  Too few / too many -> configuration error; the right number -> evaluated."""
     ci = P.cls("atsim.potentials.config._cexprtk_potential_function", "_Cexptrk_Potential_Function")
-    site = ci.lookup("__call__").site()
+    site = ci.site_of("__call__")
     for nargs, want in ((2, "accepted"), (1, "config-error"), (3, "config-error")):
         I = F.make_interp(P)
         M.install_cexprtk(I)
@@ -892,6 +900,9 @@ def _callee_always_raises(P, fi, func, depth):
     if always_raises(body):
         return True
     last = body[-1] if body else None
+    if isinstance(last, ast.Expr) and isinstance(last.value, ast.Call) and isinstance(last.value.func, ast.Attribute) \
+            and last.value.func.attr in ("error", "exit") and not "log" in ast.unparse(last.value.func.value).lower():
+        return True               # the helper ends in ArgumentParser.error / sys.exit: it ends the program
     return isinstance(last, ast.Expr) and isinstance(last.value, ast.Call) and _callee_always_raises(P, callee, last.value.func, depth - 1)
 
 
